@@ -134,6 +134,16 @@ type source struct {
 	id, fn, call, url string
 }
 
+// event: a step of a function in source order — a write to a sink or a transmission to the device
+type event struct {
+	fn, what string
+	sink     bool
+	siteIdx  int
+	lbl      labels
+}
+
+var events []event
+
 var (
 	fset       = token.NewFileSet()
 	info       *types.Info
@@ -277,7 +287,7 @@ func atSource(id string, l labels) labels {
 			r["B:"+id+"|"+k] = true
 		case strings.Contains(k, "@"):
 			r[k] = true // already attributed to an earlier call (http.NewRequest before Do)
-		case strings.HasPrefix(k, "U"):
+		case strings.HasPrefix(k, "U") || k == "D":
 		default:
 			r[k+"@"+id] = true
 		}
@@ -708,7 +718,7 @@ func (a *analysis) evalCall(c *ast.CallExpr) []labels {
 		}
 		r := make([]labels, nData+1)
 		for i := range r {
-			r[i] = labels{}
+			r[i] = lab("D") // device output
 		}
 		r[nData] = a.touch(atSource(id, urlL))
 		return r
@@ -722,6 +732,7 @@ func (a *analysis) evalCall(c *ast.CallExpr) []labels {
 	switch full {
 	case "(*net/http.Client).Get", "(*net/http.Client).PostForm", "(*net/http.Client).Do", "(*net/http.Client).Post",
 		"(*net/http.Client).Head":
+		a.transmit(full, c, all)
 		return boundary(first(), 1)
 	case "net/http.NewRequest":
 		r := boundary(union(argL[0], argL[1]), 1)
@@ -732,8 +743,12 @@ func (a *analysis) evalCall(c *ast.CallExpr) []labels {
 		r[0] = first()
 		return r
 	case "(*github.com/tailscale/goexpect.GExpect).Expect":
-		return []labels{{}, {}, first()}
+		return []labels{lab("D"), lab("D"), first()}
+	case "(*github.com/tailscale/goexpect.GExpect).Send":
+		a.transmit(full, c, all)
+		return []labels{{}}
 	case "(net/http.Header).Set", "(net/http.Header).Add", "(net/http.Header).Del":
+		a.transmit(full, c, all)
 		return []labels{{}}
 	case "(net/http.Header).Get":
 		if len(c.Args) == 1 {
@@ -839,6 +854,12 @@ func (a *analysis) resultsAt(t *fn, argL []labels) []labels {
 	return r
 }
 
+func (a *analysis) transmit(full string, c *ast.CallExpr, l labels) {
+	if recording && !symbolic {
+		events = append(events, event{fn: a.f.key, what: exprText(c), lbl: concreteKeepProv(resolve(l))})
+	}
+}
+
 func (a *analysis) record(sink, kind string, args []ast.Expr, l labels) {
 	var parts []string
 	for _, arg := range args {
@@ -851,12 +872,13 @@ func (a *analysis) record(sink, kind string, args []ast.Expr, l labels) {
 		l = lab("wrapper")
 	}
 	sites = append(sites, site{pkg: a.f.pkg, fn: a.f.key, sink: sink, kind: kind, arg: strings.Join(parts, ", "), lbl: l})
+	events = append(events, event{fn: a.f.key, what: sink + "(" + strings.Join(parts, ", ") + ")", sink: true, siteIdx: len(sites) - 1, lbl: l})
 }
 
 func concreteKeepProv(l labels) labels {
 	r := labels{}
 	for k := range l {
-		if strings.HasPrefix(k, "T:") || strings.HasPrefix(k, "M:") || strings.HasPrefix(k, "U@") {
+		if strings.HasPrefix(k, "T:") || strings.HasPrefix(k, "M:") || strings.HasPrefix(k, "U@") || k == "D" {
 			r[k] = true
 		}
 	}
@@ -1504,6 +1526,7 @@ func main() {
 	}
 	recording = true
 	sites = nil
+	events = nil
 	for _, f := range order {
 		analyseBoth(f)
 	}
@@ -1602,6 +1625,66 @@ func main() {
 	}
 	b.WriteString(strings.Join(flows, ",\n"))
 	b.WriteString("\n]\n\n")
+
+	b.WriteString("/-- A step of a function, in source order: kind 0 = write to sink `site`, 1 = transmission to the device.\n")
+	b.WriteString("`secrets`: raw secrets the written / sent value depends on (1 pass, 2 key, 3 token, 4 cookie); `masked`: secrets\n")
+	b.WriteString("it depends on through a redaction step; `dev`: it depends on device output.  grp: 1 nsx, 2 ssh back ends and\n")
+	b.WriteString("console, 3 panos, 4 the rest. -/\n")
+	b.WriteString("structure Event where\n  fnId : Nat\n  grp : Nat\n  kind : Nat\n  site : Nat\n  secrets : List Nat\n  masked : List Nat\n  dev : Bool\n  fn : String\n  what : String\n\n")
+	b.WriteString("def events : List Event := [\n")
+	secCode := map[string]int{"pass": 1, "key": 2, "token": 3, "cookie": 4}
+	maskOf := map[string]int{"passRE": 1, "keyRE": 2, "apiRE": 2}
+	for i, ev := range events {
+		var sec, msk []string
+		seenS, seenM := map[int]bool{}, map[int]bool{}
+		dev := false
+		var ks []string
+		for k := range ev.lbl {
+			ks = append(ks, k)
+		}
+		sort.Strings(ks)
+		for _, k := range ks {
+			base, _, _ := strings.Cut(k, "@")
+			switch {
+			case base == "D":
+				dev = true
+			case strings.HasPrefix(base, "T:"):
+				if c := secCode[base[2:]]; c != 0 && !seenS[c] {
+					seenS[c] = true
+					sec = append(sec, fmt.Sprint(c))
+				}
+			case strings.HasPrefix(base, "M:"):
+				if c := maskOf[base[2:]]; c != 0 && !seenM[c] {
+					seenM[c] = true
+					msk = append(msk, fmt.Sprint(c))
+				}
+			}
+		}
+		pk, _, _ := strings.Cut(ev.fn, ".")
+		grp := 4
+		switch pk {
+		case "nsx":
+			grp = 1
+		case "console", "cisco", "asa", "ios", "linux":
+			grp = 2
+		case "panos":
+			grp = 3
+		}
+		kind, sid := 1, uint32(0)
+		if ev.sink {
+			kind, sid = 0, siteID[ev.siteIdx]
+			if ev.lbl["wrapper"] {
+				continue
+			}
+		}
+		sep := ","
+		if i == len(events)-1 {
+			sep = ""
+		}
+		fmt.Fprintf(&b, "  { fnId := %d, grp := %d, kind := %d, site := %d, secrets := [%s], masked := [%s], dev := %v, fn := %s, what := %s }%s\n",
+			hash32(ev.fn), grp, kind, sid, strings.Join(sec, ", "), strings.Join(msk, ", "), dev, leanStr(ev.fn), leanStr(ev.what), sep)
+	}
+	b.WriteString("]\n\n")
 
 	// summary of the fixpoint (documentation)
 	var keys []string
